@@ -49,6 +49,8 @@ const int64_t ID_POS[] = {0, 1, 2, 63, 64, 127, 128, 16383, 16384, 2147483647LL,
                           (1LL << 53) - 1, 1LL << 53, (1LL << 62) - 1, 1LL << 62, I64MAX - 1, I64MAX};
 const int64_t ID_NEG[] = {0, -1, -2, -63, -64, -65, -128, -129, -2147483648LL, -2147483649LL, -4294967296LL, -(1LL << 53), -(1LL << 62),
                           I64MIN1 + 1, I64MIN1};
+const int64_t ID_MID[] = {0, 1, -1, 2, -2, 127, -128, 128, -129, 2147483647LL, -2147483648LL, 4294967296LL, -4294967296LL,
+                          (1LL << 53), -(1LL << 53), (1LL << 61), -(1LL << 61), (1LL << 62) - 1, -(1LL << 62)};
 const uint32_t VERSION[] = {1, 2, 127, 128, 255, 256, 65535, 65536, 2147483646U, 2147483647U};
 const uint32_t UID[] = {1, 2, 127, 128, 16384, 1000000, 2147483646U, 2147483647U};
 const uint32_t TSTAMP[] = {1, 59, 86399, 86400, 951782400U /* 2000-02-29 */, 1000000000U, 1709251199U, 2147483647U, 2147483648U,
@@ -221,12 +223,23 @@ osmium::Location make_loc(Rng& rng, const std::string& cls) {
     return osmium::Location{};
 }
 
+// Delta coded id sequences (dense nodes of a block, node references of a way, members of a relation) can only express
+// differences that fit into int64: every sequence is drawn from one of three classes whose differences all fit.
+// The XML reader keeps INT64_MAX as its overflow sentinel (C13), XML files get INT64_MAX - 1 instead.
 struct Ctx {
     Rng rng;
-    bool xml_only_strings;
-    int64_t sign;           // +1: ids from the non-negative pool, -1: from the non-positive pool (delta coded sequences)
-    explicit Ctx(uint64_t seed) : rng(seed), xml_only_strings(true), sign(1) {}
-    int64_t id() { return sign > 0 ? rng.pick(ID_POS) : rng.pick(ID_NEG); }
+    int idclass;            // 0: [0, INT64_MAX]   1: [INT64_MIN + 1, 0]   2: -2^62 <= id < 2^62, both signs
+    bool xml;
+    Ctx(uint64_t seed, bool is_xml) : rng(seed), idclass(static_cast<int>(seed % 3)), xml(is_xml) {}
+    int64_t id_of(int cls) {
+        int64_t v = 0;
+        if (cls == 0) v = rng.pick(ID_POS);
+        else if (cls == 1) v = rng.pick(ID_NEG);
+        else v = rng.pick(ID_MID);
+        if (xml && v == I64MAX) v = I64MAX - 1;
+        return v;
+    }
+    int64_t id() { return id_of(idclass); }
     std::string str_any() { return make_string(rng, rng.pick(STRLEN_ANY)); }
     std::string str_nonempty() { return make_string(rng, rng.pick(STRLEN_NONEMPTY)); }
     std::string str_short() { return make_string(rng, rng.pick(STRLEN_SHORT)); }
@@ -256,7 +269,7 @@ void add_tags(Ctx& c, osmium::builder::Builder& parent, int k, bool big_values) 
 }
 
 // The heavy classes have a nominal size in the Writer's own measure (encoded bytes of the object in the group):
-// way node references alternating between 0 and 2^62 cost 9 bytes each (+1 byte for each of lon/lat with locations
+// way node references alternating between 0 and 2^61 cost 9 bytes each (+1 byte for each of lon/lat with locations
 // on ways and undefined locations).
 std::size_t heavy_refs(const Opt& o, std::size_t nominal_bytes) {
     return nominal_bytes / (9 + (o.low ? 2 : 0));
@@ -265,7 +278,6 @@ std::size_t heavy_refs(const Opt& o, std::size_t nominal_bytes) {
 void build_elem(Ctx& c, const Opt& o, const Elem& e, int ei, Input& in, const json& sizes) {
     auto buf = std::make_unique<osmium::memory::Buffer>(1024UL * 64UL, osmium::memory::Buffer::auto_grow::yes);
     const std::size_t bi = in.bufs.size();
-    c.sign = c.rng.below(2) ? 1 : -1;   // one sign class per element: consecutive ids of a run stay delta-encodable
     const bool heavy = (e.cls == "med" || e.cls == "big");
     const int distinct = heavy ? 1 : e.n;
     std::vector<std::size_t> offs;
@@ -292,12 +304,12 @@ void build_elem(Ctx& c, const Opt& o, const Elem& e, int ei, Input& in, const js
             if (heavy) {
                 const std::size_t k = heavy_refs(o, sizes.at(e.cls).get<std::size_t>());
                 osmium::builder::WayNodeListBuilder wnl{b};
-                for (std::size_t r = 0; r < k; ++r) wnl.add_node_ref((r & 1U) ? (1LL << 62) : 0LL);
+                for (std::size_t r = 0; r < k; ++r) wnl.add_node_ref((r & 1U) ? (1LL << 61) : 0LL);
             } else if (e.refs > 0) {
                 osmium::builder::WayNodeListBuilder wnl{b};
-                const int64_t s = c.rng.below(2) ? 1 : -1;
+                const int s = static_cast<int>(c.rng.below(3));
                 for (int r = 0; r < e.refs; ++r) {
-                    const int64_t ref = s > 0 ? c.rng.pick(ID_POS) : c.rng.pick(ID_NEG);
+                    const int64_t ref = c.id_of(s);
                     std::string lc = e.rloc;
                     if (lc == "mix") lc = (r % 2 == 0) ? "valid" : "undef";
                     wnl.add_node_ref(ref, make_loc(c.rng, lc));
@@ -309,9 +321,9 @@ void build_elem(Ctx& c, const Opt& o, const Elem& e, int ei, Input& in, const js
             set_meta(c, e, b, c.id());
             if (e.mem > 0) {
                 osmium::builder::RelationMemberListBuilder rml{b};
-                const int64_t s = c.rng.below(2) ? 1 : -1;
+                const int s = static_cast<int>(c.rng.below(3));
                 for (int r = 0; r < e.mem; ++r) {
-                    const int64_t ref = s > 0 ? c.rng.pick(ID_POS) : c.rng.pick(ID_NEG);
+                    const int64_t ref = c.id_of(s);
                     const auto type = static_cast<osmium::item_type>(1 + c.rng.below(3));
                     rml.add_member(type, ref, (r % 2 == 0) ? c.str_any() : c.str_short());
                 }
@@ -480,7 +492,7 @@ json run_case(const json& c) {
     const json sizes = c.value("sizes", json::object());
 
     vh::step_marker(0);
-    Ctx ctx{seed};
+    Ctx ctx{seed, o.fmt == "xml" || o.fmt == "xmlchange"};
     std::vector<Elem> ielems;
     std::vector<Elem> eelems;
     for (const auto& e : c.at("input")) ielems.push_back(parse_elem(e));
